@@ -158,7 +158,7 @@ VF_PROPERTY(archives_foreign_stream, 2, "a CSV / JSON / XML document written by 
 	const std::string bytes = (bom ? refutf::bom_bytes(enc) : std::string()) + refutf::enc_bytes(doc, enc);
 	c.nontrivial = enc != refutf::U8 || !bom; c.describe(vf::cat("foreign ", which == 0 ? "csv " : which == 1 ? "json " : "xml ", refutf::enc_name(enc), bom ? "+bom" : "-bom", " rows=", rows, " bytes=", bytes.size(), " h=", vf::hash_bytes(bytes.data(), bytes.size())));
 	// XML without BOM in UTF-16/32: pugixml auto-detects from '<'; JSON likewise (RFC 4627 heuristics); CSV by the library's DetectEncoding
-	std::vector<Row> got; Cfg cfg; cfg.stream = true; cfg.streamKind = static_cast<int>(c.src.draw(2)); cfg.chunk = 1 + c.src.draw(300);
+	std::vector<Row> got; Cfg cfg; cfg.stream = true; cfg.streamKind = gen_stream_kind(c.src, false); cfg.chunk = 1 + c.src.draw(300);
 	Outcome lo = which == 0 ? load<CsvArchive>(got, bytes, cfg) : which == 1 ? load<JsonArchive>(got, bytes, cfg) : load<XmlArchive>(got, bytes, cfg);
 	const std::string d = vf::cat(which == 0 ? "csv " : which == 1 ? "json " : "xml ", refutf::enc_name(enc), bom ? "+bom" : "-bom", " ", bytes.size(), " bytes ", vf::hex(bytes.substr(0, 60)), " => ", lo.str(), " rows=", got.size());
 	if (!lo.ok()) c.fail("a conforming encoded document is rejected", d);
